@@ -7,6 +7,8 @@ import (
 	"os"
 	"os/exec"
 	"strings"
+
+	"potano.layercake/fs"
 )
 
 // C10, stagemaker half: run `stagemaker -generate` / `-list` with an output that accepts
@@ -121,9 +123,66 @@ func runOutFault(c Case) interface{} {
 	return obj("full", float64(len(fb)), "runs", outs)
 }
 
+// the text output cursor on its own (listings of stagemaker, layerconfig rewrites): n lines
+// through Println or Printf, the k-th write failing once (an error that does not persist:
+// a signal-interrupted or short write); Close must report it whatever comes after
+func runCursorSeq(c Case) interface{} {
+	scratch := os.Getenv("VERIF_SCRATCH")
+	if scratch == "" {
+		scratch = os.TempDir()
+	}
+	f, err := ioutil.TempFile(scratch, "cursor")
+	if err != nil {
+		return obj("harness-error", err.Error())
+	}
+	name := f.Name()
+	f.Close()
+	defer os.Remove(name)
+	n := int(num(c["n"]))
+	k := int(num(c["fault"]))
+	usePrintf, _ := c["printf"].(bool)
+	oldW, oldH := fs.WriteOK, fs.VerifHook
+	fs.WriteOK = fs.MakePretender(false, false, nil)
+	writes := 0
+	fs.VerifHook = func(kind, arg string) error {
+		if kind == "write" {
+			writes++
+			if writes == k {
+				return fmt.Errorf("injected write error")
+			}
+		}
+		return nil
+	}
+	defer func() { fs.WriteOK, fs.VerifHook = oldW, oldH }()
+	return guarded(func() interface{} {
+		cur, err := fs.NewTextOutputFileCursor(name)
+		if err != nil {
+			return obj("cls", "err:open")
+		}
+		for i := 0; i < n; i++ {
+			if usePrintf {
+				cur.Printf("line %d\n", i)
+			} else {
+				cur.Println(fmt.Sprintf("line %d", i))
+			}
+		}
+		cerr := cur.Close()
+		b, _ := ioutil.ReadFile(name)
+		return obj("cls", "ok", "closeErr", cerr != nil, "lines", float64(strings.Count(string(b), "\n")))
+	})
+}
+
 func init() {
+	ops["cursor.seq"] = runCursorSeq
 	ops["stage.outfault"] = runOutFault
 	register("c10-stage", func(g *Gen, tier string, emit func(Case)) {
+		for _, pf := range []bool{false, true} {
+			for n := 0; n <= 5; n++ {
+				for k := 0; k <= n+1; k++ {
+					emit(Case{"op": "cursor.seq", "n": float64(n), "fault": float64(k), "printf": pf})
+				}
+			}
+		}
 		n := 4
 		if tier == "thorough" {
 			n = 60
